@@ -466,11 +466,27 @@ def inline_closure_call(body, bi, crate):
     # the callee: the closure local itself or a reference to it taken in this block
     clo_local = a0['l']
     by_ref = False
-    refdefs = [st for blk in body.blocks if not blk['cleanup'] for st in blk['stmts']
-               if st['k'] == 'assign' and st['place']['l'] == a0['l'] and not st['place']['p']]
-    if len(refdefs) == 1 and refdefs[0]['rv']['k'] == 'ref' and not refdefs[0]['rv']['place']['p']:
-        clo_local = refdefs[0]['rv']['place']['l']
-        by_ref = True
+    cur_l = a0['l']
+    for _ in range(5):
+        # follow `&f`, re-borrows `&(*r)` and plain moves of the reference back to the local holding the closure
+        refdefs = [st for blk in body.blocks if not blk['cleanup'] for st in blk['stmts']
+                   if st['k'] == 'assign' and st['place']['l'] == cur_l and not st['place']['p']]
+        if len(refdefs) != 1:
+            break
+        rv = refdefs[0]['rv']
+        if rv['k'] == 'ref' and not rv['place']['p']:
+            clo_local = rv['place']['l']
+            by_ref = True
+            break
+        if rv['k'] == 'ref' and rv['place']['p'] == ['deref']:
+            cur_l = rv['place']['l']
+            continue
+        if rv['k'] == 'use' and by_ref is False:
+            src = rv['op'].get('move') or rv['op'].get('copy')
+            if src is not None and not src['p'] and body.local_ty(src['l']).startswith('&'):
+                cur_l = src['l']
+                continue
+        break
     path, root = _closure_root(body, clo_local)
     cb = crate.body(path) if path else None
     if cb is None:
